@@ -5,10 +5,12 @@ def plan(tier):
     conds = []
     conds += C.t_instr_conds("C16", tier)
     conds += C.t_upd_conds("C16", tier)
+    from vf.driver import Cond
+    conds.append(Cond("vf.h.h_clock", "h_restep", case=0, timeout=600, label="H16-restep-saved-payload", weight=20))
     return {
         "conds": conds,
         "min_classes": 150,
-        "explanation": 'C16: a retained pre-state object is structurally identical (deep snapshot incl. instance ids) after the transition, and applying the same transition twice from it gives equal results modulo instance ids.',
+        "explanation": 'C16: a retained pre-state object is structurally identical (deep snapshot incl. instance ids) after the transition, and applying the same transition twice from it gives equal results modulo instance ids. H16-restep: a saved payload (state + controller objects returned by a real step) is stepped twice through the real Update.apply_update: equal results, check-point unchanged.',
         "entry_points": ['step_simulation_ops.apply_instructions', 'step_simulation_ops.step_vehicle (VehicleState.update -> default_update -> move/charge/idle/pick_up_trip/drop_off_trip)'],
         "bounds": C.ARENA_BOUNDS + C.T_BOUNDS,
         "outside": C.T_OUTSIDE,
